@@ -103,8 +103,14 @@ def runAlgoR (k : Nat) (tv : String → Vec) (algo : Algo) (t : T) (st : List Na
 
 /-- steps, final slices (pre-order) and what is left of the stream -/
 def runCharR (k : Nat) (tv : String → Vec) (algo : Algo) (t : T) (st : List Nat) : Nat × List Vec × List Nat :=
-  let r := runAlgoR k tv algo t st
-  (upN k tv t, r.1.flat, r.2)
+  if t.kids.length == 1 then
+    if rootTipFixedInRepo && tipRooted t then
+      let r := runAlgoR k tv algo (rootAtNeighbour t) st
+      (upN k tv (rootAtNeighbour t), backOrder r.1.flat, r.2)
+    else (0, tv t.name :: List.replicate (t.size - 1) (vzero k), st)   -- pinned: nothing visited, no draw
+  else
+    let r := runAlgoR k tv algo t st
+    (upN k tv t, r.1.flat, r.2)
 
 structure AcrROut where
   steps : Nat
@@ -214,14 +220,22 @@ def asrR (t : T) (m : List (String × String)) (len : Nat) (algo : Algo) (st : L
   if algo == .none then none else
   if !((lookedUp t).all fun n => (lookup m n).isSome) then none else
   let sites := List.range len
-  let steps := sites.map fun j => upN 6 (asrTipVec m j) t
+  if t.kids.length == 1 && !(rootTipFixedInRepo && tipRooted t) then
+    -- pinned: the root is treated as a leaf, nothing else is visited, no draw
+    some ⟨sites.map (fun _ => 0) ++ [0],
+      (sites.map fun j => stateNames asrAlphabet (asrTipVec m j t.name)) ::
+        List.replicate (t.size - 1) (sites.map fun _ => ["*"]), st.head?⟩
+  else
+  let te := if t.kids.length == 1 then rootAtNeighbour t else t
+  let steps := sites.map fun j => upN 6 (asrTipVec m j) te
   let start : List A := sites.map fun j =>
-    if algo == .acctran then upA 6 (asrTipVec m j) t else down 6 (asrTipVec m j) none t
-  let am := amOf t start
+    if algo == .acctran then upA 6 (asrTipVec m j) te else down 6 (asrTipVec m j) none te
+  let am := amOf te start
   let r := match algo with
     | .downpass => resolveAM 6 am st
     | .deltran => deltranRM 6 none am st
     | _ => acctranRM 6 none am st
-  some ⟨steps ++ [0], r.1.flat.map fun ss => ss.map (stateNames asrAlphabet), r.2.head?⟩
+  let fl := r.1.flat.map fun ss => ss.map (stateNames asrAlphabet)
+  some ⟨steps ++ [0], if t.kids.length == 1 then backOrder fl else fl, r.2.head?⟩
 
 end Gotree.C12
